@@ -470,7 +470,94 @@ def _init_seed_table(ds_tree) -> dict[str, bool]:
     return t
 
 
-def _select_table(init: ast.FunctionDef, pattern: str, root_name: str, has_regex: bool) -> tuple[dict[str, bool], bool, bool]:
+_CAST = "pathlib.Path(_)"
+
+
+def _classify_dedup_expr(v: ast.expr, arg: str = "filenames"):
+    """how `filenames` is turned into the list of Path objects -> (cast, dedup, on_normalised) or None"""
+    t = _txt(v)
+    for var in ("_", "f", "fn", "filename", "name", "x", "p"):
+        c = f"pathlib.Path({var})"
+        g = f"{c}for{var}in{arg}"
+        if t in (f"[{g}]", f"list({g})"):
+            return True, False, True
+        if t in (f"list(dict.fromkeys({g}))", f"list(dict.fromkeys(({g})))", f"list(dict.fromkeys([{g}]))"):
+            return True, True, True
+        if t in (f"[{c}for{var}indict.fromkeys({arg})]", f"[{c}for{var}inlist(dict.fromkeys({arg}))]"):
+            return True, True, False
+    return None
+
+
+def _classify_dedup_helper(fn: ast.FunctionDef):
+    """a helper `unique(filenames)`: either returns one of the expressions above, or is the seen-set idiom
+    `for x in filenames: if K in seen: continue; seen.add(K); out.append(V)` — on normalised entries iff K is the Path cast"""
+    params = [a.arg for a in fn.args.args]
+    if len(params) != 1:
+        raise Untranslatable(f"`{fn.name}` takes {len(params)} arguments")
+    body = [b for b in fn.body if not (isinstance(b, ast.Expr) and isinstance(b.value, ast.Constant))]
+    rets = [n.value for n in ast.walk(fn) if isinstance(n, ast.Return) and n.value is not None]
+    if len(body) == 1 and len(rets) == 1:
+        r = _classify_dedup_expr(rets[0], params[0])
+        if r is not None:
+            return r
+    loops = [b for b in body if isinstance(b, ast.For)]
+    if len(loops) != 1 or _txt(loops[0].iter) != params[0] or not isinstance(loops[0].target, ast.Name) or len(rets) != 1:
+        raise Untranslatable(f"`{fn.name}` is not understood")
+    x = loops[0].target.id
+    env = N.Env()
+    key = val = None
+    for st in loops[0].body:
+        if isinstance(st, ast.Assign):
+            # a local holding the cast entry
+            if len(st.targets) == 1 and isinstance(st.targets[0], ast.Name) and _txt(st.value) == f"pathlib.Path({x})":
+                env.env[st.targets[0].id] = st.value
+                continue
+            raise Untranslatable(f"`{fn.name}`: assignment in the loop not understood")
+        if isinstance(st, ast.If) and not st.orelse and len(st.body) == 1 and isinstance(st.body[0], ast.Continue) \
+                and isinstance(st.test, ast.Compare) and len(st.test.ops) == 1 and isinstance(st.test.ops[0], ast.In):
+            key = _txt(env.resolve(st.test.left))
+            continue
+        if isinstance(st, ast.Expr) and isinstance(st.value, ast.Call) and isinstance(st.value.func, ast.Attribute) \
+                and len(st.value.args) == 1:
+            a = _txt(env.resolve(st.value.args[0]))
+            if st.value.func.attr == "add":
+                if key is None or a != key:
+                    raise Untranslatable(f"`{fn.name}`: the set is filled with something else than what is tested")
+                continue
+            if st.value.func.attr == "append":
+                val = a
+                continue
+        raise Untranslatable(f"`{fn.name}`: statement in the loop not understood")
+    cast = f"pathlib.Path({x})"
+    if key is None or val != cast or key not in (cast, x):
+        raise Untranslatable(f"`{fn.name}` is not the seen-set idiom")
+    return True, True, key == cast
+
+
+def _dedup_facts(init: ast.FunctionDef, after: list[ast.stmt]):
+    """(cast to Path, repeated names dropped, compared as Path objects) for the statement that rebinds `filenames`"""
+    for x in after:
+        if isinstance(x, ast.Assign) and _txt(x.targets[0]) == "filenames":
+            r = _classify_dedup_expr(x.value)
+            if r is not None:
+                return r
+            v = x.value
+            if isinstance(v, ast.Call) and len(v.args) == 1 and not v.keywords and _txt(v.args[0]) == "filenames":
+                name = _txt(v.func).rsplit(".", 1)[-1]
+                for rel in (H5, DS, "direct/utils/dataset.py", "direct/utils/__init__.py", "direct/utils/io.py"):
+                    try:
+                        tree = parse_file(REPO / rel)
+                    except Untranslatable:
+                        continue
+                    fn = next((n for n in tree.body if isinstance(n, ast.FunctionDef) and n.name == name), None)
+                    if fn is not None:
+                        return _classify_dedup_helper(fn)
+                raise Untranslatable(f"helper `{name}` not found")
+            raise Untranslatable(f"`filenames = {ast.unparse(x.value)}` not understood")
+    raise Untranslatable("the entries are never cast to pathlib.Path")
+
+
+def _select_table(init: ast.FunctionDef, pattern: str, root_name: str, has_regex: bool):
     """structure of the file selection at the top of `__init__`; also returns whether the directory listing is sorted"""
     t: dict[str, bool] = {}
     top = next((s for s in init.body if isinstance(s, ast.If) and _txt(s.test) == "filenames_filterisNone"), None)
@@ -493,17 +580,15 @@ def _select_table(init: ast.FunctionDef, pattern: str, root_name: str, has_regex
     t["listing_is_glob_of_root"] = len(lst) == 1 and lst[0] in (f"list({glob})", f"sorted({glob})", f"list(sorted({glob}))")
     is_sorted = len(lst) == 1 and "sorted(" in lst[0]
     after = init.body[init.body.index(top) + 1:]
-    plain = any(_txt(x) == "filenames=[pathlib.Path(_)for_infilenames]" for x in after)
-    dedup = any(_txt(x) in ("filenames=list(dict.fromkeys((pathlib.Path(_)for_infilenames)))",
-                            "filenames=list(dict.fromkeys(pathlib.Path(_)for_infilenames))") for x in after)
-    t["paths_made_pathlib"] = plain != dedup
+    cast, dedup, on_norm = _dedup_facts(init, after)
+    t["paths_made_pathlib"] = cast
     if has_regex:
         rx = next((x for x in after if isinstance(x, ast.If) and _txt(x.test) == "regex_filter"), None)
         t["regex_match_on_str_of_path"] = rx is not None and [_txt(x) for x in rx.body] == [
             "filenames=[_for_infilenamesifre.match(regex_filter,str(_))]"]
     else:
         t["no_regex_parameter"] = "regex_filter" not in [a.arg for a in init.args.args]
-    return t, is_sorted, dedup
+    return t, is_sorted, dedup, on_norm
 
 
 def _returns(fn: ast.FunctionDef) -> list[str]:
@@ -920,15 +1005,18 @@ def _c12_extra():
     out.append("/-- construction-time seeding of FakeMRIBlobsDataset / SheppLoganDataset -/\n" + _emit_list("initSeedTable", it))
     sel = table("selectTable", lambda: _select_table(find_function(h5, "H5SliceData.__init__"), "*.h5", "root", True), None)
     csel = table("cmrSelectTable", lambda: _select_table(find_function(ds, "CMRxReconDataset.__init__"), "*.mat", "data_root", False), None)
-    for nm, res, const, dconst in (("selectTable", sel, "listingSorted", "dedupNames"),
-                                   ("cmrSelectTable", csel, "cmrListingSorted", "cmrDedupNames")):
+    for nm, res, const, dconst, nconst in (("selectTable", sel, "listingSorted", "dedupNames", "dedupOnNormalised"),
+                                           ("cmrSelectTable", csel, "cmrListingSorted", "cmrDedupNames", "cmrDedupOnNormalised")):
         if res is None:
             out.append(f"/-- SKIPPED -/\ndef {nm} : List (String × Bool) := [(\"skipped\", true)]\n"
-                       f"def {const} : Bool := Dataset.listingSortedCurrent\ndef {dconst} : Bool := Dataset.dedupCurrent\n")
+                       f"def {const} : Bool := Dataset.listingSortedCurrent\ndef {dconst} : Bool := Dataset.dedupCurrent\n"
+                       f"def {nconst} : Bool := Dataset.dedupOnNormalisedCurrent\n")
         else:
             out.append(f"/-- file selection in `__init__` -/\n" + _emit_list(nm, res[0]) +
                        f"/-- is the directory listing sorted before use? -/\ndef {const} : Bool := {_lean_bool(res[1])}\n"
-                       f"/-- are repeated names dropped (first kept) before parsing? -/\ndef {dconst} : Bool := {_lean_bool(res[2])}\n")
+                       f"/-- are repeated names dropped (first kept) before parsing? -/\ndef {dconst} : Bool := {_lean_bool(res[2])}\n"
+                       f"/-- are repeated names recognised on the pathlib.Path objects (not on the entries as given)? -/\n"
+                       f"def {nconst} : Bool := {_lean_bool(res[3])}\n")
     cls = table("classTable", lambda: _class_table(h5, ds), None)
     if cls is None:
         out.append("/-- SKIPPED -/\ndef classTable : List (String × Bool) := [(\"skipped\", true)]\n"
